@@ -20,13 +20,16 @@ Definition ref_eqb (a b : option string * string) : bool :=
   ostr_eqb (fst a) (fst b) && String.eqb (snd a) (snd b).
 
 Definition sentinel_srefs (x : query) : list (nat * option string * string) :=
-  flat_map (fun r => let '(cl, qu, n) := r in if is_sentinel n then [(clause_code cl, qu, n)] else []) (stmt_refs x).
+  flat_map (fun r => let '(cl, qu, n) := r in
+                     if is_sentinel n || (String.eqb n "*" && is_some qu) then [(clause_code cl, qu, n)] else []) (stmt_refs x).
 Definition sentinel_refs (c : ctx) (t : term) : list (option string * string) :=
   filter (fun r => is_sentinel (snd r)) (leaf_refs c t).
 
 Inductive c10case :=
 | CStmt (x : query) (text : string) (aliases : list (option string)) (refs : list (nat * option string * string))
-| CTerm (c : ctx) (t : term) (text : string) (refs : list (option string * string)).
+| CTerm (c : ctx) (t : term) (text : string) (refs : list (option string * string))
+(* a history of from_() / join() calls in any order, and the aliases found on the passed objects afterwards *)
+| CHist (h : list ev) (aliases : list (option string)).
 
 Definition term_text (c : ctx) (t : term) : string := match render c t with Ok s => s | Err e => ("!" ++ e)%string end.
 (* the text through the TOKEN renderer: checks the token view against the implementation directly *)
@@ -47,9 +50,11 @@ Definition check_c10 (cs : c10case) : bool :=
   | CTerm c t text refs =>
       String.eqb (term_text c t) text && String.eqb (tok_text_of c t) text
       && (is_err text || list_eqb ref_eqb (sentinel_refs c t) refs)
+  | CHist h aliases => list_eqb ostr_eqb (map fst (fst (run_hist 0 h))) aliases
   end.
 Definition show_c10 (cs : c10case) : string * list (option string) * list (nat * option string * string) :=
   match cs with
   | CStmt x _ _ _ => (query_text x, source_aliases x, sentinel_srefs x)
   | CTerm c t _ _ => (term_text c t, [], map (fun r => (0, fst r, snd r)) (sentinel_refs c t))
+  | CHist h _ => (""%string, map fst (fst (run_hist 0 h)), [])
   end.
